@@ -278,7 +278,8 @@ def inplace_discipline(ctx, P, D):
             env = dict(module_constants(f.module.tree))
             env.update({p_: SO(p_) for p_ in params})
             env["inplace"] = inplace
-            mach = Machine(env, attrs, call, fuel=16, undecided=lambda t: True)
+            from ..smallstep import follow_private_methods as _fpm
+            mach = Machine(env, attrs, _fpm(cls, call), fuel=16, undecided=lambda t: True)
             # `<obj>.polygons` belongs to whatever <obj> evaluates to: resolve the owner through the machine's environment
             def owner(text, mach=mach):
                 head = text[:-len(".polygons")]
